@@ -198,10 +198,20 @@ def importMod (w : World) (st : St) (m : Mod) : Option (St × Option Err) :=
     | some (st', some e) => some (st', some e)
     | some (st', none) => execMod w st' m
 
+/-- the process state a `ModuleNotFoundError` out of `import m` leaves behind: an existing parent package has been
+executed (its classes are registered, it stays in `sys.modules`) although the sub-module is missing -/
+def afterNotFound (w : World) (st : St) (m : Mod) : St :=
+  match m.sub with
+  | none => st
+  | some _ =>
+    match execMod w st ⟨m.pkg, none⟩ with
+    | some (st', none) => st'
+    | _ => st
+
 /-- `Bank.Path.load` -/
 def loadPath (w : World) (st : St) (p : PathE) : St × Option Err :=
   match importMod w st p.mod with
-  | none => (st, if p.explicit then some .preload else none)
+  | none => (afterNotFound w st p.mod, if p.explicit then some .preload else none)
   | some (st', some e) => (st', some e)
   | some (st', none) =>
     match p.mod.sub, findMod p.mod w with
